@@ -2,7 +2,8 @@
 
 case = {'family': 'cls', 'config': {...}, 'input': {'y_true': .., 'y_pred': ..}}
 config: input_type, average, pos_label, vocab (list | None), k_list
-        (ascending list | None), container ('list' | 'array'), split (int | None)
+        (list in any order, duplicates allowed | None), container ('list' |
+        'array'), split (int | None)
 """
 
 from __future__ import annotations
@@ -29,6 +30,29 @@ def _kwargs(config):
   )
 
 
+KLIST_ORDER = 'classification-klist-result-order'
+KLIST_DUPS = 'classification-klist-duplicates-dropped'
+
+
+def _klist_mechanism(config, position=None, length_differs=False):
+  """Input-class key for a positional top-k result.
+
+  The library answers in ascending order of the distinct ks. A position whose
+  requested k differs from the k at that position of the sorted request is
+  'displaced' (klist-result-order); a result that is shorter than a request
+  with repeated ks lost the duplicates (klist-duplicates-dropped).
+  """
+  kl = config.get('k_list')
+  if not kl:
+    return None
+  kl = list(kl)
+  if length_differs:
+    return KLIST_DUPS if len(set(kl)) != len(kl) else None
+  if position is not None and position < len(kl) and kl[position] != sorted(kl)[position]:
+    return KLIST_ORDER
+  return None
+
+
 def _mechanism(config, name, conv):
   if config['average'] == 'macro' and config.get('k_list'):
     return 'topk-macro-mean-over-k-axis'
@@ -51,10 +75,20 @@ def _compare(ctx, mis, config, res, exp, path, compare_accuracy):
     if exp['conv'].get(name):
       ctx.count('convention_cases')
     if isinstance(want, list):
-      ok = cm.seq_close(_tolist(got), want)
-    else:
-      ok = _is_scalar(got) and cm.close(got, want)
-    if not ok:
+      got_l = _tolist(got)
+      if len(got_l) != len(want):
+        mech = _klist_mechanism(config, length_differs=True)
+        mis.add('value_mismatch', mech or _mechanism(config, name, exp['conv']),
+                {'metric': name, 'path': path, 'k_list': config.get('k_list'),
+                 'got': got, 'want': want})
+        continue
+      for j, (g, w) in enumerate(zip(got_l, want)):
+        if not cm.close(g, w):
+          mech = _klist_mechanism(config, position=j)
+          mis.add('value_mismatch', mech or _mechanism(config, name, exp['conv']),
+                  {'metric': name, 'path': path, 'k_list': config.get('k_list'),
+                   'position': j, 'got': got, 'want': want})
+    elif not (_is_scalar(got) and cm.close(got, want)):
       mis.add('value_mismatch', _mechanism(config, name, exp['conv']),
               {'metric': name, 'path': path, 'got': got, 'want': want})
 
@@ -113,6 +147,8 @@ def check(ctx, case):
                 not any(exp['conv'][b] for b in basic))
   ctx.case(('cls', config, inp), nontrivial)
   ctx.count('cls_cases')
+  if config.get('k_list') and list(config['k_list']) != sorted(set(config['k_list'])):
+    ctx.count('cls_unordered_klist_cases')
   metrics = list(oc.DERIVED)
 
   def guarded(path, fn):
@@ -230,11 +266,25 @@ def check(ctx, case):
       for key in ('tp', 'tn', 'fp', 'fn'):
         got = np.asarray(getattr(cmat, key))
         want = np.asarray(want_of(key))
-        if got.shape != want.shape or not bool(np.array_equal(got, want)):
-          mis.add('count_mismatch', None,
-                  {'count': key, 'got': got, 'want': want})
-      if kw['k_list'] and list(np.asarray(cmat.k).tolist()) != exp['ks']:
-        mis.add('count_mismatch', None, {'k': cmat.k, 'want': exp['ks']})
+        if got.shape != want.shape:
+          mech = None
+          if kw['k_list'] and got.shape[1:] == want.shape[1:]:
+            mech = _klist_mechanism(config, length_differs=True)
+          mis.add('count_mismatch', mech, {'count': key, 'got': got, 'want': want})
+        elif not bool(np.array_equal(got, want)):
+          mech = None
+          if kw['k_list']:
+            bad = [j for j in range(len(want)) if not np.array_equal(got[j], want[j])]
+            mech = _klist_mechanism(config, position=bad[0])
+          mis.add('count_mismatch', mech, {'count': key, 'got': got, 'want': want})
+      if kw['k_list']:
+        got_k = list(np.asarray(cmat.k).tolist())
+        if got_k != exp['ks']:
+          bad = [j for j, (a, b) in enumerate(zip(got_k, exp['ks'])) if a != b]
+          mech = (_klist_mechanism(config, length_differs=True)
+                  if len(got_k) != len(exp['ks'])
+                  else _klist_mechanism(config, position=bad[0]))
+          mis.add('count_mismatch', mech, {'k': cmat.k, 'want': exp['ks']})
 
   if not mis.flush(ctx, case) and len(ctx.samples) < 2:
     ctx.sample({'family': 'cls', 'config': config, 'input': inp,
